@@ -182,6 +182,27 @@ def run_prov(prog):
     return obs, [Floor(RULE, "option loops", n, 8)], {"option_loops": n}
 
 
+def run_optsplit(prog):
+    """`name=value` options are split at the FIRST `=` by every FromStr impl of the CLI (values and paths may contain `=`)"""
+    RULE = "R-PROV"
+    obs = []
+    n = 0
+    for p, f in sorted(prog.fns.items()):
+        if f.kind == "Closure" or not f.crate.startswith("jrsonnet_cli") or not (f.impl_trait or "").endswith("str::traits::FromStr") or not p.endswith("::from_str"):
+            continue
+        cs = [(t.get("fn") or "") for b, t in f.calls() if not f.is_cleanup(b)]
+        first = [c for c in cs if c.endswith(("<impl str>::find", "<impl str>::split_once", "<impl str>::splitn"))]
+        last = [c for c in cs if c.endswith(("<impl str>::rfind", "<impl str>::rsplit_once", "<impl str>::rsplitn", "<impl str>::rsplit"))]
+        if not first and not last:
+            continue
+        n += 1
+        key = "option-split:%s" % short_path(f.self_ty or p)
+        obs.append(bad(RULE, key, site(f), "%s splits `name=value` at the last `=` (%s): a value or path that contains `=` ends up in the name; the sibling options split at the first"
+                       % (short_path(f.self_ty or p), short_path(last[0]))) if last else
+                   ok(RULE, key, site(f), "split at the first `=`"))
+    return obs, [Floor(RULE, "name=value option parsers", n, 2)], {}
+
+
 def run_exit(prog):
     RULE = "R-EXIT"
     obs = []
